@@ -39,7 +39,12 @@
 //!        (0 bytes) String child | (1 cp) char child | (3 n) i64 child | (4) unit
 //!        (5 k view)  Suspend::new(async { future k; view })
 //!        (2 tag attrs children)  tag: index into TAGS
-//! attr : (0 name value ty) | (1 name bool ty) | (2 class ty) | (3 class-name bool ty) | (4 style ty)
+//!        (7 k v)  a primitive child (prim(): bool, integers of every width, floats, IpAddr, NonZero)
+//!        (8 attrs view)  view.add_any_attr(attrs): attributes handed to a type-erased view from outside
+//!                        (the `extra_attrs` path of to_html_with_buf)
+//! attr : (7 name k v) a primitive attribute value | (8 snippet ty) inner_html (raw by contract: fixed
+//!        well-formed snippets) |
+//!        (0 name value ty) | (1 name bool ty) | (2 class ty) | (3 class-name bool ty) | (4 style ty)
 //!        (5 prop value ty keyty) | (6 value ty) typed `id`; ty selects the Rust type that carries the
 //!        string (String, &str, Arc<str>, Cow, Oco, Option<..>, closures, signals: see with_*_value)
 //!        text children: (0 bytes ty)
@@ -105,11 +110,19 @@ macro_rules! with_attr_value {
             21 => { let a: Arc<str> = Arc::from(v); let $x = move || a.clone(); $body }
             22 => { let $x = ArcRwSignal::new(Oco::<'static, str>::Borrowed(leak(v))); $body }
             23 => { let l = leak(v); let $x = move || Some(Oco::<'static, str>::Borrowed(l)); $body }
+            // every signal type of reactive_impl! (tachys/src/reactive_graph/mod.rs)
+            24 => { let $x = RwSignal::new(v); $body }
+            25 => { let $x = RwSignal::new(v).read_only(); $body }
+            26 => { let $x = Memo::new(move |_| v.clone()); $body }
+            27 => { let $x = Signal::derive(move || v.clone()); $body }
+            28 => { let $x = ArcRwSignal::new(v).read_only(); $body }
+            29 => { let $x = ArcSignal::derive(move || v.clone()); $body }
+            30 => { let $x = Signal::stored(v); $body }
             _ => { let $x = v; $body }
         }
     }};
 }
-pub const N_ATTR_TYPES: i64 = 24;
+pub const N_ATTR_TYPES: i64 = 31;
 
 /// a class string as one of the types that implement `IntoClass` (html/class.rs, oco.rs,
 /// reactive_graph/class.rs)
@@ -138,11 +151,18 @@ macro_rules! with_class_value {
             19 => { let a: Arc<str> = Arc::from(v); let $x = move || a.clone(); $body }
             20 => { let l = leak(v); let $x = move || Cow::<'static, str>::Borrowed(l); $body }
             21 => { let $x: Option<Cow<'static, str>> = Some(Cow::Borrowed(leak(v))); $body }
+            22 => { let $x = RwSignal::new(v); $body }
+            23 => { let $x = RwSignal::new(v).read_only(); $body }
+            24 => { let $x = Memo::new(move |_| v.clone()); $body }
+            25 => { let $x = Signal::derive(move || v.clone()); $body }
+            26 => { let $x = ArcRwSignal::new(v).read_only(); $body }
+            27 => { let $x = ArcSignal::derive(move || v.clone()); $body }
+            28 => { let $x = ArcMemo::new(move |_| v.clone()); $body }
             _ => { let $x = v; $body }
         }
     }};
 }
-pub const N_CLASS_TYPES: i64 = 22;
+pub const N_CLASS_TYPES: i64 = 29;
 
 /// a whole style string as one of the types that implement `IntoStyle` (html/style.rs,
 /// oco.rs, reactive_graph/style.rs)
@@ -168,11 +188,18 @@ macro_rules! with_style_value {
             16 => { let $x = Some(leak(v)); $body }
             17 => { let $x: Option<Arc<str>> = Some(Arc::from(v)); $body }
             18 => { let a: Arc<str> = Arc::from(v); let $x = move || a.clone(); $body }
+            19 => { let $x = RwSignal::new(v); $body }
+            20 => { let $x = RwSignal::new(v).read_only(); $body }
+            21 => { let $x = Memo::new(move |_| v.clone()); $body }
+            22 => { let $x = Signal::derive(move || v.clone()); $body }
+            23 => { let $x = ArcRwSignal::new(v).read_only(); $body }
+            24 => { let $x = ArcSignal::derive(move || v.clone()); $body }
+            25 => { let $x = ArcMemo::new(move |_| v.clone()); $body }
             _ => { let $x = v; $body }
         }
     }};
 }
-pub const N_STYLE_TYPES: i64 = 19;
+pub const N_STYLE_TYPES: i64 = 26;
 
 /// a style property value as one of the types that implement `IntoStyleValue`
 macro_rules! with_style_prop_value {
@@ -194,16 +221,83 @@ macro_rules! with_style_prop_value {
             13 => { let l = leak(v); let $x = move || l; $body }
             14 => { let $x: Option<Arc<str>> = Some(Arc::from(v)); $body }
             15 => { let a: Arc<str> = Arc::from(v); let $x = move || a.clone(); $body }
+            16 => { let $x = RwSignal::new(v); $body }
+            17 => { let $x = Memo::new(move |_| v.clone()); $body }
+            18 => { let $x = Signal::derive(move || v.clone()); $body }
+            19 => { let $x = ArcSignal::derive(move || v.clone()); $body }
+            20 => { let $x = ArcMemo::new(move |_| v.clone()); $body }
             _ => { let $x = v; $body }
         }
     }};
 }
-pub const N_PROP_TYPES: i64 = 16;
+pub const N_PROP_TYPES: i64 = 21;
+
+/// the f32 / f64 values of the cases (gen/c06.py FLOATS gives their Display)
+const FLOATS: [f64; 8] = [0.5, 1.0, -2.25, f64::NAN, f64::INFINITY, f64::NEG_INFINITY, 1e21, -0.0];
+
+/// a primitive (render_primitive! of view/primitives.rs and html/attribute/value.rs) as child or
+/// attribute value
+macro_rules! with_prim {
+    ($k:expr, $n:expr, |$x:ident| $body:expr, |$c:ident| $cbody:expr) => {{
+        use std::net::{IpAddr, Ipv4Addr, Ipv6Addr, SocketAddr};
+        use std::num::*;
+        let n: i64 = $n;
+        match $k {
+            0 => { let $x = n as u8; $body }
+            1 => { let $x = n as u16; $body }
+            2 => { let $x = n as u32; $body }
+            3 => { let $x = n as u64; $body }
+            4 => { let $x = (n as u64 as u128) << 64 | 7; $body }
+            5 => { let $x = n as usize; $body }
+            6 => { let $x = n as i8; $body }
+            7 => { let $x = n as i16; $body }
+            8 => { let $x = n as i32; $body }
+            9 => { let $x = (n as i128) << 64; $body }
+            10 => { let $x = n as isize; $body }
+            11 => { let $x = FLOATS[(n as usize) % 8] as f32; $body }
+            12 => { let $x = FLOATS[(n as usize) % 8]; $body }
+            13 => { let $x: IpAddr = if n % 2 == 0 { IpAddr::V4(Ipv4Addr::new(127, 0, 0, 1)) } else { IpAddr::V6(Ipv6Addr::LOCALHOST) }; $body }
+            14 => { let $x: SocketAddr = SocketAddr::new(IpAddr::V6(Ipv6Addr::LOCALHOST), n as u16); $body }
+            15 => { let $x = NonZeroU32::new((n as u32) | 1).unwrap(); $body }
+            16 => { let $x = NonZeroI64::new(n | 1).unwrap(); $body }
+            17 => { let $x = Ipv4Addr::new(10, 0, 0, n as u8); $body }
+            18 => { let $c = n != 0; $cbody }
+            _ => { let $x = char::from_u32(n as u32).expect("scalar value"); $body }
+        }
+    }};
+}
+
+/// inner_html is raw by contract: fixed well-formed snippets (gen/c06.py SNIPPETS)
+const SNIPPETS: [&str; 6] = [
+    "<b>x</b>",
+    "a &amp; b",
+    "<i title=\"q&quot;\">y</i><br>",
+    "",
+    "<ul><li>1</li><li>2</li></ul>",
+    "&lt;not a tag&gt;",
+];
 
 fn attrs(s: &Sexp) -> Vec<AnyAttribute> {
+    use tachys::html::element::inner_html;
     s.list()
         .iter()
         .map(|a| match a.at(0).num() {
+            7 => {
+                let key = text(a.at(1));
+                with_prim!(a.at(2).num(), a.at(3).num(), |v| custom_attribute(key, v).into_any_attr(),
+                    |b| custom_attribute(key, b.to_string()).into_any_attr())
+            }
+            8 => {
+                let v = SNIPPETS[(a.at(1).num() as usize) % SNIPPETS.len()];
+                match a.at(2).num() {
+                    1 => inner_html(v.to_string()).into_any_attr(),
+                    2 => inner_html(Arc::<str>::from(v)).into_any_attr(),
+                    3 => inner_html(Some(v.to_string())).into_any_attr(),
+                    4 => inner_html(move || v.to_string()).into_any_attr(),
+                    5 => inner_html(ArcRwSignal::new(v.to_string())).into_any_attr(),
+                    _ => inner_html(v).into_any_attr(),
+                }
+            }
             0 => {
                 let key = text(a.at(1));
                 with_attr_value!(a.at(3).num(), text(a.at(2)), |v| custom_attribute(key, v).into_any_attr())
@@ -279,10 +373,18 @@ fn text_child(ty: i64, v: String) -> AnyView {
             (move || Cow::<'static, str>::Borrowed(l)).into_any()
         }
         18 => ArcRwSignal::new(Oco::<'static, str>::Borrowed(leak(v))).into_any(),
+        19 => RwSignal::new(v).into_any(),
+        20 => RwSignal::new(v).read_only().into_any(),
+        21 => Memo::new(move |_| v.clone()).into_any(),
+        22 => Signal::derive(move || v.clone()).into_any(),
+        23 => ArcRwSignal::new(v).read_only().into_any(),
+        24 => ArcSignal::derive(move || v.clone()).into_any(),
+        25 => ArcMemo::new(move |_| v.clone()).into_any(),
+        26 => Signal::stored(v).into_any(),
         _ => v.into_any(),
     }
 }
-pub const N_TEXT_TYPES: i64 = 19;
+pub const N_TEXT_TYPES: i64 = 27;
 
 fn seq(mut v: Vec<AnyView>) -> AnyView {
     let first = v.remove(0);
@@ -329,6 +431,8 @@ pub fn view(v: &Sexp) -> AnyView {
             .into_any()
         }
         6 => meta_node(v),
+        7 => with_prim!(v.at(1).num(), v.at(2).num(), |x| x.into_any(), |b| b.into_any()),
+        8 => view(v.at(2)).add_any_attr(attrs(v.at(1))).into_any(),
         0 => text_child(v.at(2).num(), text(v.at(1))),
         1 => char::from_u32(v.at(1).num() as u32)
             .expect("scalar value")
@@ -883,7 +987,7 @@ pub fn run(c: &Sexp) -> Sexp {
         return meta_document(c);
     }
     let out = match c.at(0).num() {
-        1 => view(c.at(1)).to_html(),
+        1 => Owner::new().with(|| view(c.at(1)).to_html()),
         2 => static_view(c.at(1).num()),
         3 => document(c),
         4 => template_view(c.at(1).num(), text(c.at(2))),
